@@ -145,6 +145,18 @@ def bool_indexed(expr):
         ast.unparse(expr.value.elts[1])
 
 
+def owned_by(an, fn, cls_qn: str) -> bool:
+    """``fn`` is a method of the class, or of a private base class split off it in the
+    same module (``class _Part: ...; class Whole(_Part): ...``)"""
+    if fn is None or fn.cls is None:
+        return False
+    if fn.cls.qn == cls_qn:
+        return True
+    info = an.p.classes.get(cls_qn)
+    return info is not None and fn.cls.qn in info.mro and fn.cls.name.startswith('_') \
+        and fn.cls.module is info.module
+
+
 def is_site(node, call) -> bool:
     """an event's node stands for the call site ``call``: the node itself, or the call a
     ``functools.partial`` local stands for at that site"""
@@ -528,7 +540,13 @@ def value_expr(path: Path, index: int, expr, depth: int = 12, keep_clock: bool =
                                        keep, trace)
                 if found is not None:
                     return found
-            return self.generic_visit(node)
+            node = self.generic_visit(node)
+            # a field of a record (typing.NamedTuple) that was built on this path
+            fields = getattr(node.value, 'record_fields', None) \
+                if isinstance(node.value, ast.Tuple) else None
+            if fields and node.attr in fields and isinstance(node.ctx, ast.Load):
+                return node.value.elts[fields.index(node.attr)]
+            return node
 
         def visit_IfExp(self, node):
             # the branch taken on this path, when the test was observed
@@ -589,6 +607,9 @@ def value_expr(path: Path, index: int, expr, depth: int = 12, keep_clock: bool =
             if got is not None:
                 return got
             node = self.generic_visit(node)
+            record = _record_display(node, fn)
+            if record is not None:
+                return record
             inner = node.func
             if isinstance(inner, ast.Call) and inner.args and \
                     ast.unparse(inner.func) in ('partial', 'functools.partial') and \
@@ -614,6 +635,69 @@ def value_expr(path: Path, index: int, expr, depth: int = 12, keep_clock: bool =
             return node
 
     return Sub().visit(tree)
+
+
+_RECORDS = {}
+
+
+def record_fields(program, cls_qn: str):
+    """[(field, default expr | None)] when the class is a plain ``typing.NamedTuple``
+    record (fields by annotation, no ``__new__``/``__init__`` of its own), else None"""
+    found = _RECORDS.get((id(program), cls_qn))
+    if found is not None:
+        return found[0]
+    info = program.classes.get(cls_qn)
+    fields = None
+    if info is not None and any(ast.unparse(b).split('.')[-1] == 'NamedTuple'
+                                for b in info.node.bases) and \
+            '__new__' not in info.methods and '__init__' not in info.methods:
+        fields = []
+        for stmt in info.node.body:
+            if isinstance(stmt, ast.AnnAssign) and isinstance(stmt.target, ast.Name):
+                fields.append((stmt.target.id, stmt.value))
+    _RECORDS[(id(program), cls_qn)] = (fields, program)
+    return fields
+
+
+def _record_display(call: ast.Call, fn):
+    """``Record(a, b=c)`` as the tuple display ``(a, c)`` it is (a typing.NamedTuple of the
+    package), tagged with its field names; None for any other call"""
+    if fn is None or not isinstance(call.func, (ast.Name, ast.Attribute)) or any(
+            isinstance(a, ast.Starred) for a in call.args) or any(
+            kw.arg is None for kw in call.keywords):
+        return None
+    program = getattr(fn.module, 'program', None)
+    if program is None:
+        return None
+    try:
+        binding = program.resolve_dotted(fn.module, call.func)
+    except Exception:
+        return None
+    if not binding or binding[0] != 'class':
+        return None
+    fields = record_fields(program, binding[1])
+    if not fields:
+        return None
+    import copy
+    names = [name for name, _d in fields]
+    given = dict(zip(names, call.args))
+    if len(call.args) > len(names):
+        return None
+    for kw in call.keywords:
+        if kw.arg not in names or kw.arg in given:
+            return None
+        given[kw.arg] = kw.value
+    elts = []
+    for name, default in fields:
+        if name in given:
+            elts.append(given[name])
+        elif default is not None:
+            elts.append(copy.deepcopy(default))
+        else:
+            return None
+    display = ast.copy_location(ast.Tuple(elts=elts, ctx=ast.Load()), call)
+    display.record_fields = names
+    return display
 
 
 def _manager_field(path: Path, index: int, mgr, attr: str, depth, keep_clock, keep, trace):
